@@ -822,11 +822,11 @@ def _variants():
         V("prime-bound-mul", replace_expr("permuta/misc/math.py", "is_prime", "i ** 2 <= n", "i * i <= n"), "silent"),
         V("prime-bound-flipped", replace_expr("permuta/misc/math.py", "is_prime", "i ** 2 <= n", "n >= i * i"), "silent"),
         V("peaks-nonstrict", replace_expr(PE, "Perm.peaks", "prev < curr > nxt", "prev < curr >= nxt"), "fire", "C11-D1"),
-        V("valleys-as-peaks", replace_expr(PE, "Perm.valleys", "prev > curr < nxt", "prev < curr > nxt"), "fire", "C11-D1"),
+        V("valleys-as-peaks", replace_expr(PE, "Perm.valleys", "prev > curr < nxt", "prev < curr > nxt"), "fire-or-undecided", "C11-D1", note="two operators changed at once: beyond a point change"),
         V("peaks-index-shift", replace_expr(PE, "Perm.peaks", "idx + 1", "idx"), "fire", "C11-D1"),
         V("inc-bonds-as-dec", replace_expr(PE, "Perm.inc_bonds", "curr == prev + 1", "prev == curr + 1"), "fire", "C11-D1"),
         V("double-excedance-weak", replace_expr(PE, "Perm.double_excedance", "idx < val < self[val]", "idx <= val < self[val]"), "fire", "C11-D1"),
-        V("depth-all-terms", replace_expr(PE, "Perm.depth", "sum((val - idx for idx, val in enumerate(self) if val > idx))", "sum((val - idx for idx, val in enumerate(self) if val >= idx - 1))"), "fire", "C11-D1"),
+        V("depth-all-terms", replace_expr(PE, "Perm.depth", "sum((val - idx for idx, val in enumerate(self) if val > idx))", "sum((val - idx for idx, val in enumerate(self) if val > idx - 1))"), "fire", "C11-D1"),
         V("major-index-zero-based", replace_expr(PE, "Perm.major_index", "1 + desc", "desc"), "fire", "C11-D1"),
         V("descents-weak", replace_expr(PE, "Perm.descents", "prev > curr", "prev >= curr"), "fire", "C11-D1"),
         V("column-primes-offset", replace_expr(PE, "Perm.count_column_sum_primes", "val + idx + 2", "val + idx + 1"), "fire", "C11-D1"),
